@@ -11,12 +11,13 @@ Section QuietConnect.
 Variable P : Type.
 Variable peer : P -> list Z -> P * list Z.
 Variable c : cfg.
+Variable X : list Z -> Prop.          (* what is known about the local buffer (nothing, or that it is empty) *)
 Notation world := (world P).
 Notation St := (St P).
 Notation normal_script := (normal_script P).
 
 (* the parts of the world a connection attempt does not touch *)
-Definition K (p : P) (w : world) : Prop := w_peer w = p /\ ff (w_choices w) /\ normal_script w.
+Definition K (p : P) (w : world) : Prop := w_peer w = p /\ ff (w_choices w) /\ normal_script w /\ X (w_buf w).
 Definition Closed (p : P) (w : world) : Prop := w_sock w = None /\ K p w.
 Definition Conn (sid : Z) (p : P) (w : world) : Prop := w_sock w = Some sid /\ conn_get (w_conns w) sid = [] /\ K p w.
 Definition Ready (p : P) (w : world) : Prop := (exists sid, Conn sid p w) \/ Closed p w.
@@ -24,8 +25,8 @@ Definition Ready (p : P) (w : world) : Prop := (exists sid, Conn sid p w) \/ Clo
 Definition Mid (sid : Z) (p : P) (w : world) : Prop := w_sock w = None /\ conn_get (w_conns w) sid = [] /\ K p w.
 Definition can_connect : Prop := c_tcp c = false \/ 1 <= c_naddr c.
 
-Lemma St_Conn sid p w : St sid p [] w -> Conn sid p w.
-Proof. intros H. destruct (St_nil P sid p w H) as [_ Ha]. destruct H as (H1 & H2 & _ & H4 & H5). repeat split; auto. Qed.
+Lemma St_Conn sid p w : X [] -> St sid p [] w -> Conn sid p w.
+Proof. intros Hx H. destruct (St_nil P sid p w H) as [Hb Ha]. destruct H as (H1 & H2 & _ & H4 & H5). rewrite <- Hb in Hx. repeat split; auto. Qed.
 
 (* predicates that look only at the socket, the peer, the choices, the connections and the script's normality *)
 Definition stable (I : world -> Prop) : Prop :=
@@ -34,9 +35,9 @@ Lemma stable_K_like (F : world -> Prop) :
   (forall w t, F w -> F (upd_trace w t)) -> (forall w r, F w -> F (upd_script w r)) ->
   forall p, stable (fun w => F w /\ K p w).
 Proof.
-  intros Ht Hs p. split; [intros w [_ (_ & _ & H)]; exact H|]. split.
-  - intros w t [Hf (A & B & C0)]. split; [apply Ht, Hf|]. unfold K, Quiet.normal_script. cbn. auto.
-  - intros w o r [Hf (A & B & C0)] E. split; [apply Hs, Hf|]. unfold K, Quiet.normal_script in *. cbn. rewrite E in C0. repeat split; auto. apply (Forall_inv_tail C0).
+  intros Ht Hs p. split; [intros w [_ (_ & _ & H & _)]; exact H|]. split.
+  - intros w t [Hf (A & B & C0 & D)]. split; [apply Ht, Hf|]. unfold K, Quiet.normal_script. cbn. auto.
+  - intros w o r [Hf (A & B & C0 & D)] E. split; [apply Hs, Hf|]. unfold K, Quiet.normal_script in *. cbn. rewrite E in C0. repeat split; auto. apply (Forall_inv_tail C0).
 Qed.
 Lemma stable_Closed p : stable (Closed p).
 Proof. apply (stable_K_like (fun w => w_sock w = None)); intros; assumption. Qed.
@@ -44,8 +45,8 @@ Lemma stable_Mid sid p : stable (Mid sid p).
 Proof.
   pose proof (stable_K_like (fun w => w_sock w = None /\ conn_get (w_conns w) sid = []) (fun w t H => H) (fun w r H => H) p) as S.
   destruct S as (S1 & S2 & S3). split; [intros w (A & B & C0); apply (S1 w); tauto|]. split.
-  - intros w t (A & B & C0). destruct (S2 w t (conj (conj A B) C0)) as [[X Y] Z0]. repeat split; auto; apply Z0.
-  - intros w o r (A & B & C0) E. destruct (S3 w o r (conj (conj A B) C0) E) as [[X Y] Z0]. repeat split; auto; apply Z0.
+  - intros w t (A & B & C0). destruct (S2 w t (conj (conj A B) C0)) as [[X1 Y1] Z0]. repeat split; auto; apply Z0.
+  - intros w o r (A & B & C0) E. destruct (S3 w o r (conj (conj A B) C0) E) as [[X1 Y1] Z0]. repeat split; auto; apply Z0.
 Qed.
 Lemma h_log_stable I e : stable I -> hoare I (log (P:=P) e) (fun _ => I) (fun _ _ => False).
 Proof. intros (_ & S2 & _) w H. unfold log. apply S2, H. Qed.
@@ -57,8 +58,8 @@ Proof.
 Qed.
 Lemma h_call_stable I e : stable I -> hoare I (call (P:=P) e) (fun _ => I) (fun _ _ => False).
 Proof.
-  intros S. unfold call. eapply h_bind; [apply (h_log_stable I e S)|]. intros _.
-  eapply h_bind; [apply (h_pop_stable I S)|]. intros o. intros w [-> H]. exact H.
+  intros S. unfold call. eapply h_bind; [apply (h_log_stable I e S)|]. intros ?u.
+  eapply h_bind; [apply (h_pop_stable I S)|]. intros o w [E H]. subst o. exact H.
 Qed.
 
 Lemma conn_get_set_other cs a b x : a <> b -> conn_get (conn_set cs a x) b = conn_get cs b.
@@ -72,37 +73,34 @@ Qed.
 (* making the socket object (and wrapping it for TLS) *)
 Lemma h_fresh_sid p : hoare (Closed p) (fresh_sid (P:=P)) (fun sid w => Mid sid p w) (fun _ _ => False).
 Proof.
-  intros w (A & B & C0 & D). unfold fresh_sid, Mid, K, Quiet.normal_script. cbn. rewrite conn_get_set_same. repeat split; auto.
+  intros w (A & B & C0 & D & E). unfold fresh_sid, Mid, K, Quiet.normal_script. cbn. rewrite conn_get_set_same. repeat split; auto.
 Qed.
 Lemma h_fresh_wrapped sid p : hoare (Mid sid p) (fresh_wrapped (P:=P) sid) (fun w2 w => Mid w2 p w) (fun _ _ => False).
 Proof.
-  intros w (A & B & C0 & D & E). unfold fresh_wrapped, Mid, K, Quiet.normal_script. cbn.
-  destruct (Z.eq_dec sid (w_next w)) as [X|X].
+  intros w (A & B & C0 & D & E & F). unfold fresh_wrapped, Mid, K, Quiet.normal_script. cbn.
+  destruct (Z.eq_dec sid (w_next w)) as [Hq|Hq].
   - subst sid. rewrite conn_get_set_same. repeat split; auto.
-  - rewrite (conn_get_set_other _ sid (w_next w)) by exact X. rewrite conn_get_set_same. repeat split; auto.
+  - rewrite (conn_get_set_other _ sid (w_next w)) by exact Hq. rewrite conn_get_set_same. repeat split; auto.
+Qed.
+
+Lemma h_pop_then {A} I (k : outcome -> M P A) Q E : stable I -> hoare I (k ONormal) Q E -> hoare I (mbind pop k) Q E.
+Proof.
+  intros S Hk w Hw. unfold mbind. pose proof (h_pop_stable I S w Hw) as Hq. destruct (pop w) as [[o|e] w1]; [|destruct Hq].
+  destruct Hq as [-> H1]. apply Hk, H1.
 Qed.
 
 Lemma h_try_make p j : hoare (Closed p) (try_make P c j) (fun r w => exists sid, r = inl sid /\ Mid sid p w) (fun _ _ => False).
 Proof.
-  unfold try_make. eapply h_bind; [apply (h_pop_stable _ (stable_Closed p))|]. intros o.
-  intros w [-> H]. revert w H. change (hoare (Closed p) (mbind (fresh_sid (P:=P)) (fun sid => mbind (log (ESocket sid j)) (fun _ =>
-     mtry (mbind (if c_nodelay c then call (ESetopt sid 1) else ret tt) (fun _ =>
-           if c_tls c then mbind pop (fun o2 => match o2 with
-                                                 | OFail e => mbind (log (EWrapFail sid)) (fun _ => throw e)
-                                                 | _ => mbind (fresh_wrapped sid) (fun w0 => mbind (log (EWrap sid w0)) (fun _ => ret (inl w0))) end)
-           else ret (inl sid))) Exception_ (fun e => mbind (call (EClose sid)) (fun _ => ret (inr e))))))
-     (fun r w => exists sid, r = inl sid /\ Mid sid p w) (fun _ _ => False)).
+  unfold try_make. apply h_pop_then; [apply stable_Closed|]. cbn iota.
   eapply h_bind; [apply h_fresh_sid|]. intros sid.
-  eapply h_bind; [apply (h_log_stable _ _ (stable_Mid sid p))|]. intros _.
+  eapply h_bind; [apply (h_log_stable _ _ (stable_Mid sid p))|]. intros ?u.
   eapply h_try with (E1 := fun _ _ => False); [|intros e He w []|intros e w He []].
   eapply h_bind with (Q1 := fun _ => Mid sid p).
   { destruct (c_nodelay c); [apply (h_call_stable _ _ (stable_Mid sid p))|apply h_ret']; auto. }
-  intros _. destruct (c_tls c).
-  - eapply h_bind; [apply (h_pop_stable _ (stable_Mid sid p))|]. intros o2. intros w [-> H]. revert w H.
-    change (hoare (Mid sid p) (mbind (fresh_wrapped (P:=P) sid) (fun w0 => mbind (log (EWrap sid w0)) (fun _ => ret (inl w0))))
-                  (fun r w => exists sid0, r = inl sid0 /\ Mid sid0 p w) (fun _ _ => False)).
+  intros ?u. destruct (c_tls c).
+  - apply h_pop_then; [apply stable_Mid|]. cbn iota.
     eapply h_bind; [apply h_fresh_wrapped|]. intros w0.
-    eapply h_bind; [apply (h_log_stable _ _ (stable_Mid w0 p))|]. intros _. apply h_ret'. intros w H. exists w0. auto.
+    eapply h_bind; [apply (h_log_stable _ _ (stable_Mid w0 p))|]. intros ?u. apply h_ret'. intros w H. exists w0. auto.
   - apply h_ret'. intros w H. exists sid. auto.
 Qed.
 
@@ -111,41 +109,139 @@ Proof.
   intros Hcan. unfold client_connect.
   eapply h_bind with (Q1 := fun _ => Closed p).
   { intros w H. unfold client_close, mbind, get_sock. destruct H as [Hs Hk]. rewrite Hs. split; assumption. }
-  intros _.
+  intros ?u.
   eapply h_bind with (Q1 := fun sj w => Mid (fst sj) p w).
   { destruct (c_tcp c) eqn:Et.
-    - destruct Hcan as [X|Hn]; [discriminate|].
-      eapply h_bind; [apply (h_call_stable _ _ (stable_Closed p))|]. intros _.
+    - destruct Hcan as [Hq|Hn]; [congruence|].
+      eapply h_bind; [apply (h_call_stable _ _ (stable_Closed p))|]. intros ?u.
       destruct (Z.to_nat (c_naddr c)) as [|n] eqn:En; [lia|]. cbn [addr_loop].
       eapply h_bind with (Q1 := fun r w => exists sid, r = (Some (sid, 0), None) /\ Mid sid p w).
-      + eapply h_bind; [apply (h_try_make p 0)|]. intros r. intros w (sid & -> & H). exists sid. auto.
-      + intros r. intros w (sid & -> & H). exact H.
-    - eapply h_bind; [apply (h_pop_stable _ (stable_Closed p))|]. intros o. intros w [-> H]. revert w H.
-      change (hoare (Closed p) (mbind (fresh_sid (P:=P)) (fun sid => mbind (log (ESocket sid (-1))) (fun _ => ret (sid, -1))))
-                    (fun sj w => Mid (fst sj) p w) (fun _ _ => False)).
+      + eapply h_bind; [apply (h_try_make p 0)|]. intros r. intros w (sid & E & H). subst r. exists sid. auto.
+      + intros r. intros w (sid & E & H). subst r. exact H.
+    - apply h_pop_then; [apply stable_Closed|]. cbn iota.
       eapply h_bind; [apply h_fresh_sid|]. intros sid.
-      eapply h_bind; [apply (h_log_stable _ _ (stable_Mid sid p))|]. intros _. apply h_ret'. auto. }
+      eapply h_bind; [apply (h_log_stable _ _ (stable_Mid sid p))|]. intros ?u. apply h_ret'. auto. }
   intros [sid j]. cbn [fst].
   eapply h_bind with (Q1 := fun _ => Mid sid p).
   { eapply h_try with (E1 := fun _ _ => False); [|intros e He w []|intros e w He []].
-    eapply h_bind; [apply (h_call_stable _ _ (stable_Mid sid p))|]. intros _.
+    eapply h_bind; [apply (h_call_stable _ _ (stable_Mid sid p))|]. intros ?u.
     eapply h_bind with (Q1 := fun _ => Mid sid p).
     { destruct (c_keepalive c); [|apply h_ret'; auto].
-      eapply h_bind; [apply (h_call_stable _ _ (stable_Mid sid p))|]. intros _.
-      eapply h_bind; [apply (h_call_stable _ _ (stable_Mid sid p))|]. intros _.
-      eapply h_bind; [apply (h_call_stable _ _ (stable_Mid sid p))|]. intros _. apply (h_call_stable _ _ (stable_Mid sid p)). }
-    intros _. eapply h_bind; [apply (h_call_stable _ _ (stable_Mid sid p))|]. intros _. apply (h_call_stable _ _ (stable_Mid sid p)). }
-  intros _. intros w (A & B & C0). unfold set_sock. exists sid. unfold Conn, K, Quiet.normal_script in *. cbn. tauto.
+      eapply h_bind; [apply (h_call_stable _ _ (stable_Mid sid p))|]. intros ?u.
+      eapply h_bind; [apply (h_call_stable _ _ (stable_Mid sid p))|]. intros ?u.
+      eapply h_bind; [apply (h_call_stable _ _ (stable_Mid sid p))|]. intros ?u. apply (h_call_stable _ _ (stable_Mid sid p)). }
+    intros ?u. eapply h_bind; [apply (h_call_stable _ _ (stable_Mid sid p))|]. intros ?u. apply (h_call_stable _ _ (stable_Mid sid p)). }
+  intros ?u. intros w (A & B & C0). unfold set_sock. exists sid. unfold Conn, K, Quiet.normal_script in *. cbn. tauto.
 Qed.
 
 Lemma h_ensure_ready p : can_connect -> hoare (Ready p) (ensure_connected P c) (fun _ w => exists sid, Conn sid p w) (fun _ _ => False).
 Proof.
   intros Hcan w [[sid H]|H]; unfold ensure_connected, mbind, get_sock.
   - destruct H as (A & B). rewrite A. exists sid. split; assumption.
-  - pose proof (h_connect p Hcan w H) as X. destruct H as [A _]. rewrite A. exact X.
+  - pose proof (h_connect p Hcan w H) as Hq. destruct H as [A _]. rewrite A. exact Hq.
 Qed.
 Lemma h_ex {A} (Pre : Z -> world -> Prop) (m : M P A) Q E : (forall sid, hoare (Pre sid) m Q E) -> hoare (fun w => exists sid, Pre sid w) m Q E.
 Proof. intros H w [sid Hw]. apply (H sid w Hw). Qed.
 Lemma h_reset_conn sid p : hoare (Conn sid p) (@reset_buf P) (fun _ => St sid p []) (fun _ _ => False).
-Proof. intros w (A & B & C0 & D & E). unfold reset_buf, Quiet.St, Quiet.normal_script. cbn. rewrite B. repeat split; auto. Qed.
+Proof. intros w (A & B & C0 & D & E & F). unfold reset_buf, Quiet.St, Quiet.normal_script. cbn. rewrite B. repeat split; auto. Qed.
+
 End QuietConnect.
+
+(* ---- the exchanges, from any ready client ---- *)
+Section Exchanges.
+Variable P : Type.
+Variable peer : P -> list Z -> P * list Z.
+Variable c : cfg.
+Hypothesis Hcan : can_connect c.
+Notation world := (world P).
+Notation St := (St P).
+Notation normal_script := (normal_script P).
+Definition anybuf (b : list Z) : Prop := True.
+Definition nobuf (b : list Z) : Prop := b = [].
+Notation Ready := (Ready P anybuf).
+Ltac start_ready XX p :=
+  eapply h_bind with (Q1 := fun _ w => exists sid, Conn P XX sid p w); [eapply h_conseq; [apply (h_ensure_ready P peer c XX p Hcan)|auto|auto|intros e w []]|].
+
+Theorem store_io_ready p p' name values cmds lines :
+  peer p cmds = (p', lines_bytes lines) -> length lines = length values -> Forall line_ok lines ->
+  (forall e, exn_isa e Exception_ = true -> exn_isa e (h_store c) = true) ->
+  hoare (Ready p) (store_io P peer c name values false cmds)
+        (fun res w => read_store_lines name values lines [] = Ok res /\ exists sid, St sid p' [] w)
+        (fun e w => read_store_lines name values lines [] = Raise e /\ w_sock w = None).
+Proof.
+  intros Hp Hlen Hok Hc. unfold store_io, exchange. start_ready anybuf p. intros u. cbn beta. apply h_ex. intros sid.
+  eapply h_bind with (Q1 := fun _ => St sid p []); [eapply h_conseq; [apply (h_reset_conn P anybuf sid p)|auto|auto|intros e w []]|]. intros u1. cbn beta.
+  eapply h_try with (E1 := fun e w => read_store_lines name values lines [] = Raise e /\ normal_script w).
+  - eapply h_bind with (Q1 := fun _ => St sid p' (lines_bytes lines));
+      [eapply h_conseq; [apply (h_send_quiet P peer sid p cmds p' (lines_bytes lines) Hp)|auto|auto|intros e w []]|].
+    intros u2. cbn beta iota. eapply h_conseq; [apply (store_loop P sid p' name values lines [] Hlen Hok)|auto| |auto].
+    intros a w [A B]. split; [exact A|exists sid; exact B].
+  - intros e He. eapply h_conseq; [apply (h_handler_after_read P (fun x => read_store_lines name values lines [] = Raise x) e)|auto|intros a w []|auto].
+  - intros e w He [H1 H2]. rewrite (Hc e (read_store_class name values lines [] e H1)) in He. discriminate.
+Qed.
+Theorem misc_cmd_ready p p' cmds lines :
+  peer p (concat cmds) = (p', lines_bytes lines) -> length lines = length cmds -> Forall line_ok lines ->
+  (forall e, exn_isa e Exception_ = true -> exn_isa e (h_misc c) = true) ->
+  hoare (Ready p) (misc_cmd P peer c cmds false [])
+        (fun res w => read_misc_lines lines [] = Ok res /\ exists sid, St sid p' [] w)
+        (fun e w => read_misc_lines lines [] = Raise e /\ w_sock w = None).
+Proof.
+  intros Hp Hlen Hok Hc. unfold misc_cmd, exchange. start_ready anybuf p. intros u. cbn beta. apply h_ex. intros sid.
+  eapply h_bind with (Q1 := fun _ => St sid p []); [eapply h_conseq; [apply (h_reset_conn P anybuf sid p)|auto|auto|intros e w []]|]. intros u1. cbn beta.
+  eapply h_try with (E1 := fun e w => read_misc_lines lines [] = Raise e /\ normal_script w).
+  - eapply h_bind with (Q1 := fun _ => St sid p' (lines_bytes lines));
+      [eapply h_conseq; [apply (h_send_quiet P peer sid p (concat cmds) p' (lines_bytes lines) Hp)|auto|auto|intros e w []]|].
+    intros u2. cbn beta iota. eapply h_conseq; [apply (misc_loop P sid p' cmds lines [] Hlen Hok)|auto| |auto].
+    intros a w [A B]. split; [exact A|exists sid; exact B].
+  - intros e He. eapply h_conseq; [apply (h_handler_after_read P (fun x => read_misc_lines lines [] = Raise x) e)|auto|intros a w []|auto].
+  - intros e w He [H1 H2]. rewrite (Hc e (read_misc_class lines [] e H1)) in He. discriminate.
+Qed.
+Theorem store_io_noreply_ready p p' name values cmds : peer p cmds = (p', []) ->
+  hoare (Ready p) (store_io P peer c name values true cmds) (fun _ w => exists sid, St sid p' [] w) (fun _ _ => False).
+Proof.
+  intros Hp. unfold store_io, exchange. start_ready anybuf p. intros u. cbn beta. apply h_ex. intros sid.
+  eapply h_bind with (Q1 := fun _ => St sid p []); [apply (h_reset_conn P anybuf sid p)|]. intros u1. cbn beta.
+  eapply h_try with (E1 := fun _ _ => False).
+  - eapply h_bind with (Q1 := fun _ => St sid p' []); [apply (h_send_quiet P peer sid p cmds p' [] Hp)|]. intros u2. cbn beta iota. apply h_ret'. intros w H. exists sid. exact H.
+  - intros e He w [].
+  - intros e w He [].
+Qed.
+Theorem misc_cmd_noreply_ready p p' cmds : peer p (concat cmds) = (p', []) ->
+  hoare (Ready p) (misc_cmd P peer c cmds true []) (fun _ w => exists sid, St sid p' [] w) (fun _ _ => False).
+Proof.
+  intros Hp. unfold misc_cmd, exchange. start_ready anybuf p. intros u. cbn beta. apply h_ex. intros sid.
+  eapply h_bind with (Q1 := fun _ => St sid p []); [apply (h_reset_conn P anybuf sid p)|]. intros u1. cbn beta.
+  eapply h_try with (E1 := fun _ _ => False).
+  - eapply h_bind with (Q1 := fun _ => St sid p' []); [apply (h_send_quiet P peer sid p (concat cmds) p' [] Hp)|]. intros u2. cbn beta iota. apply h_ret'. intros w H. exists sid. exact H.
+  - intros e He w [].
+  - intros e w He [].
+Qed.
+(* retrievals: _fetch_cmd empties its buffer first and connects inside the try block *)
+Theorem fetch_io_ready p p' name wc remapped cmd items :
+  peer p cmd = (p', items_bytes wc items) -> Forall item_wf items -> c_ignore_exc c = false -> h_fetch c = BaseException ->
+  hoare (Ready p) (fetch_io P peer c name wc remapped cmd)
+        (fun res w => read_items c wc remapped items [] = Ok res /\ exists sid, St sid p' [] w)
+        (fun e w => read_items c wc remapped items [] = Raise e /\ w_sock w = None).
+Proof.
+  intros Hp Hwf Hign Hh. unfold fetch_io, exchange.
+  eapply h_bind with (Q1 := fun _ => QuietConnect.Ready P nobuf p).
+  { intros w [[sid (A & B & C0 & D & E & F)]|(A & C0 & D & E & F)]; unfold reset_buf; [left; exists sid|right];
+      unfold Conn, Closed, K, Quiet.normal_script, nobuf; cbn; repeat split; auto. }
+  intros u1. cbn beta.
+  eapply h_try with (E1 := fun e w => read_items c wc remapped items [] = Raise e /\ normal_script w).
+  - start_ready nobuf p. intros u. cbn beta. apply h_ex. intros sid.
+    eapply h_conseq with (Pre' := St sid p []) (Q' := fun res w => read_items c wc remapped items [] = Ok res /\ St sid p' [] w)
+                         (E' := fun e w => read_items c wc remapped items [] = Raise e /\ normal_script w).
+    + eapply h_bind with (Q1 := fun _ => St sid p' (items_bytes wc items));
+        [eapply h_conseq; [apply (h_send_quiet P peer sid p cmd p' (items_bytes wc items) Hp)|auto|auto|intros e w []]|].
+      intros u2. cbn beta. intros w Hw.
+      apply (fetch_loop_quiet P peer c sid p' name wc remapped items _ [] Hwf); [|exact Hw].
+      destruct Hw as (S1 & _ & S3 & _). unfold cur_avail. rewrite S1, S3. unfold items_bytes. rewrite app_length. pose proof (items_len P peer wc items). lia.
+    + intros w (A & B & C0 & D & E & F). unfold nobuf in F. unfold Quiet.St. rewrite F, B. repeat split; auto.
+    + intros a w [A B]. split; [exact A|exists sid; exact B].
+    + auto.
+  - intros e He. rewrite Hign. cbn [andb].
+    eapply h_conseq; [apply (h_handler_after_read P (fun x => read_items c wc remapped items [] = Raise x) e)|auto|intros a w []|auto].
+  - intros e w He _. rewrite Hh in He. destruct e; discriminate.
+Qed.
+End Exchanges.
